@@ -3,7 +3,7 @@
 From Coq Require Import Sorting.Sorted Sorting.Permutation.
 From GoCar Require Import Bytes Varint Cid Header Frame V2Header Scan Index Store Wf.
 From GoCarProofs Require Import BytesFacts VarintFacts CidFacts HeaderFacts ScanFacts
-     FinalBytes FinalOrder FinalIndex FinalStore FinalWf FinalAccept.
+     FinalBytes FinalOrder FinalIndex FinalStore FinalWf FinalAccept FinalWide.
 
 Lemma roots_of_opt nilroots roots : roots_of (roots_opt nilroots roots) = roots.
 Proof. unfold roots_opt. destruct roots; [destruct nilroots|]; reflexivity. Qed.
@@ -238,4 +238,68 @@ Proof.
   - intros Hv. split; [exact (Hfi Hv)|]. intros Hc. exact (Hcodes Hv Hc).
   - unfold ro. rewrite roots_of_opt. exact Hne.
   - unfold ro. rewrite roots_of_opt. exact Hincl.
+Qed.
+
+(* ---- the same for the options the library actually works with (ApplyOptions): no condition on
+   MaxIndexCidSize is left ------------------------------------------------------------------------------------- *)
+Theorem c05_wf_applied :
+  forall (k : skind) (o0 : wopts) (nilroots : bool) (roots : list bytes) (h : list batch) s outs,
+  let o := apply_wopts o0 in
+  let ro := roots_opt nilroots roots in
+  let stored := spec_stored k o ro h in
+  session k o nilroots roots h = Ok (s, outs, ONil) ->
+  51 + w_dpad o + w_ipad o < two64 -> w_ipad o < two63 ->
+  roots_ok roots ->
+  Forall (Forall (fun b : block => blen (fst b) + blen (snd b) < 2 ^ 56)) h ->
+  blen (ws_file s) < two63 ->
+  (w_v1 o = false -> w_codec o = codec_mh_sorted ->
+   N.of_nat (length (group_by r_code (ii_load (records_from (ld_size (blen (enc_header ro 1))) stored) []))) < two31) ->
+  wf_parse o (ws_file s) = Some (roots, stored) /\ wf_car o (ws_file s) = true.
+Proof.
+  intros k o0 nilroots roots h s outs o ro stored Hs Ho Hip Hr Hput Hlen Hcodes.
+  apply (c05_wf k o nilroots roots h s outs Hs Ho Hip (apply_wopts_maxcid o0) Hr Hput Hlen Hcodes).
+Qed.
+
+Theorem c05_inspect_accepts_applied :
+  forall (hok : bytes -> bytes -> option bool) (hdrdec : bytes -> option (list bytes * N))
+         (k : skind) (o0 : wopts) (nilroots : bool) (roots : list bytes) (h : list batch) s outs
+         (r : ropts) (validate : bool),
+  let o := apply_wopts o0 in
+  let ro := roots_opt nilroots roots in
+  session k o nilroots roots h = Ok (s, outs, ONil) ->
+  51 + w_dpad o + w_ipad o < two64 -> w_ipad o < two63 ->
+  Forall (Forall (fun b : block => blen (fst b) + blen (snd b) < 2 ^ 56)) h ->
+  blen (ws_file s) < two63 ->
+  hdrdec pragma_body = Some ([], 2) -> hdrdec (enc_header ro 1) = Some (roots, 1) ->
+  blen (enc_header ro 1) <= o_maxh r ->
+  Forall (Forall (fun b : block => blen (fst b) + blen (snd b) <= o_maxs r)) h ->
+  (validate = true -> Forall (Forall (hash_good hok)) h) ->
+  inspect_check hok hdrdec r validate (ws_file s) = Ok tt.
+Proof.
+  intros hok hdrdec k o0 nilroots roots h s outs r validate o ro Hs Ho Hip.
+  apply (c05_inspect_accepts hok hdrdec k o nilroots roots h s outs r validate Hs Ho Hip (apply_wopts_maxcid o0)).
+Qed.
+
+Theorem c05_verify_accepts_partial_applied :
+  forall (hok : bytes -> bytes -> option bool) (hdrdec : bytes -> option (list bytes * N))
+         (k : skind) (o0 : wopts) (nilroots : bool) (roots : list bytes) (h : list batch) s outs,
+  let o := apply_wopts o0 in
+  let ro := roots_opt nilroots roots in
+  let stored := spec_stored k o ro h in
+  session k o nilroots roots h = Ok (s, outs, ONil) ->
+  51 + w_dpad o + w_ipad o < two64 -> w_ipad o < two63 ->
+  Forall (Forall (fun b : block => blen (fst b) + blen (snd b) < 2 ^ 56)) h ->
+  blen (ws_file s) < two63 ->
+  (w_v1 o = false -> w_codec o = codec_mh_sorted ->
+   N.of_nat (length (group_by r_code (ii_load (records_from (ld_size (blen (enc_header ro 1))) stored) []))) < two31) ->
+  hdrdec pragma_body = Some ([], 2) -> hdrdec (enc_header ro 1) = Some (roots, 1) ->
+  blen (enc_header ro 1) <= o_maxh default_ropts ->
+  Forall (Forall (fun b : block => blen (fst b) + blen (snd b) <= o_maxs default_ropts)) h ->
+  Forall (Forall (hash_good hok)) h ->
+  incl roots (map fst stored) ->
+  roots <> [] ->
+  verify_check hok hdrdec (ws_file s) = Ok tt.
+Proof.
+  intros hok hdrdec k o0 nilroots roots h s outs o ro stored Hs Ho Hip.
+  apply (c05_verify_accepts_partial hok hdrdec k o nilroots roots h s outs Hs Ho Hip (apply_wopts_maxcid o0)).
 Qed.
